@@ -106,6 +106,8 @@ def machine_shard(seed: int, examples: int, steps: int, known: list[str]) -> dic
             self.model_owner: list[Any] = []
             self.queue: deque[int] = deque()
             self.purged: set[str] = set()
+            self.trig_model: dict[str, tuple[str, tuple[str, ...]]] = {}
+            self.trig_cleaned = False
 
         # ------------------------------------------------------------------ plumbing
         def _t(self, *op):
@@ -548,6 +550,58 @@ def machine_shard(seed: int, examples: int, steps: int, known: list[str]) -> dic
 
             self.both("cron_bookkeeping", fn, mutation=True)
 
+        # store-level trigger definitions over a small id universe, against a reference model.  Precondition every real
+        # caller respects (register_task_triggers cleans the task first): a live trigger id is only re-registered with the
+        # same content; after its task was cleaned (or the store purged) the id may come back with other conditions.
+        def _trig_observe(self, why: str) -> None:
+            def obs(sd):
+                out = []
+                for cid in ("vc1", "vc2", "vc3"):
+                    out.append((cid, sorted((t.trigger_id, t.task_id.key, tuple(sorted(t.condition_ids))) for t in sd.app.trigger.get_triggers_for_condition(cid))))
+                for tid in ("VT1", "VT2", "VT3"):
+                    t = sd.app.trigger._get_trigger(tid)
+                    out.append((tid, None if t is None else (t.task_id.key, tuple(sorted(t.condition_ids)))))
+                return out
+
+            got = self.both(f"trigger_definitions_after_{why}", obs)
+            exp = []
+            for cid in ("vc1", "vc2", "vc3"):
+                exp.append((cid, sorted((tid, tk, cs) for tid, (tk, cs) in self.trig_model.items() if cid in cs)))
+            for tid in ("VT1", "VT2", "VT3"):
+                exp.append((tid, self.trig_model.get(tid)))
+            if got[0] == "ok" and got[1] != exp:
+                rep.fail("machine:trigger_definitions:differs-from-model", f"after {why}: stores report {got[1]} but the registered definitions are {exp}; trace tail {self.trace[-6:]}")
+
+        @rule(tid=st.sampled_from(["VT1", "VT2", "VT3"]), conds=st.lists(st.sampled_from(["vc1", "vc2", "vc3"]), min_size=1, max_size=3, unique=True), tk=st.sampled_from(["ta", "tb"]))
+        def trig_dto_register(self, tid, conds, tk):
+            from pynenc.identifiers.task_id import TaskId
+            from pynenc.models.trigger_definition_dto import TriggerDefinitionDTO
+            from pynenc.trigger.conditions import CompositeLogic
+
+            task_id = TaskId("verif_trig_mod", tk)
+            if tid in self.trig_model:
+                key, cs = self.trig_model[tid]
+                task_id = TaskId.from_key(key)
+                conds = list(cs)
+            self._t("trig_dto_register", tid, tuple(conds), task_id.key)
+            self.both("register_trigger", lambda sd: sd.app.trigger.register_trigger(TriggerDefinitionDTO(trigger_id=tid, task_id=task_id, condition_ids=list(conds), logic=CompositeLogic.AND, argument_provider_json=None)), mutation=True)
+            self.trig_model[tid] = (task_id.key, tuple(sorted(conds)))
+            if len({v[0] for v in self.trig_model.values()}) >= 1 and self.trig_cleaned:
+                self.nontrivial = True
+            self._trig_observe("register")
+
+        @rule(tk=st.sampled_from(["ta", "tb"]))
+        def trig_dto_clean(self, tk):
+            from pynenc.identifiers.task_id import TaskId
+
+            task_id = TaskId("verif_trig_mod", tk)
+            self._t("trig_dto_clean", task_id.key)
+            self.both("clean_task_trigger_definitions", lambda sd: sd.app.trigger.clean_task_trigger_definitions(task_id), mutation=True)
+            if any(v[0] == task_id.key for v in self.trig_model.values()):
+                self.trig_cleaned = True
+            self.trig_model = {k: v for k, v in self.trig_model.items() if v[0] != task_id.key}
+            self._trig_observe("clean")
+
         @rule()
         def trig_sources(self):
             self._t("trig_sources")
@@ -574,6 +628,8 @@ def machine_shard(seed: int, examples: int, steps: int, known: list[str]) -> dic
             self.purged.add(what)
             if what == "broker":
                 self.queue.clear()
+            if what == "trigger":
+                self.trig_model.clear()
             if what == "state_backend":
                 # the stored invocations are gone: orchestrator and broker are purged with it and the universe starts
                 # again (an orchestrator that outlives its state backend is not a state the operations are specified for)
